@@ -125,7 +125,7 @@ Print Assumptions c03_stat_pull_attached.
 (* non-vacuity: a history with a publisher, a refused second publisher, a pull overtaken by the
    publisher, a subscriber, a kick and a departure reaches a state the theorems talk about *)
 Example c03_nonvacuous :
-  let h := [EStartPull 1 0 (-1) true; ERtmpPub 1 1 false; EFlvSub 1 2 false; ERtspPub 1 3 false; EPsPub 1 4;
+  let h := [EStartPull 1 0 (-1) true; ERtmpPub 1 1 false; EFlvSub 1 2 false; ERtspPub 1 3 false; EPsPub 1 4 true;
             EPullSucc 1 1; EKick 1 (KConn 1); EGone 1; ETick 1] in
   let '(st, log) := run fixed_tree (mk_config false 1) init_state h in
   map n_kind log = [NPubStart; NSubStart; NPullStop; NPubStop] /\
@@ -340,3 +340,34 @@ Theorem c03_sdp_is_of_accepted_input_pinned_refuted :
     lookup_sdp 1 (ds_sdp ds) = Some (OAtt 1 1).
 Proof. exact sdp_of_refused_pull_unrepaired. Qed.
 Print Assumptions c03_sdp_is_of_accepted_input_pinned_refuted.
+
+(* ---- start_rtp_pub whose port cannot be bound ------------------------------------------------------------------
+   Group.StartRtpPub registers the new session as the stream's input and runs addIn BEFORE PubSession.Listen; when Listen
+   fails it must take the session out again (delPsPubSession).  The event EPsPub carries the outcome of Listen, like the
+   observer verdicts of the network arrivals.  A call that fails to listen is a REFUSED input: its whole effect is the
+   state of a refusal (the group exists, the name is that of a refused, ended session), nothing is notified, the answer
+   is an error; every group that existed is exactly what it was.  All theorems above quantify over all events, so they
+   hold for this one: one input at most, foreign events keep the accepted input, no notification and no stat entry
+   for the refused session. *)
+From Lal Require Import Group.GroupListenFailProofs.
+
+Theorem c03_listen_failure_is_refusal : forall fx cf st s n, fresh st n = true ->
+  let '(st1, r, ns) := step fx cf st (EPsPub s n false) in
+  st1 = add_sess (fst (get_or_create cf st s)) (refused_sess n KPsPub s) /\ ns = [] /\
+  (r = RCode code_listen_fail RsNone None \/ r = RCode code_start_rtp_pub_fail RsDup None).
+Proof. exact listen_fail_step. Qed.
+Print Assumptions c03_listen_failure_is_refusal.
+
+Theorem c03_listen_failure_keeps_groups : forall fx cf st s n s' g,
+  get_group st s' = Some g -> get_group (fst (fst (step fx cf st (EPsPub s n false)))) s' = Some g.
+Proof. exact listen_fail_keeps_groups. Qed.
+Print Assumptions c03_listen_failure_keeps_groups.
+
+(* the slot is free afterwards: the stream's group has the slots it had, none if the call created it *)
+Theorem c03_listen_failure_leaves_slot_free : forall cf st s n, fresh st n = true ->
+  match get_group (fst (fst (step fixed_tree cf st (EPsPub s n false)))) s with
+  | Some g1 => slots g1 = match get_group st s with Some g0 => slots g0 | None => (None, None, None, None, None, None) end
+  | None => False
+  end.
+Proof. exact listen_fail_no_input. Qed.
+Print Assumptions c03_listen_failure_leaves_slot_free.
